@@ -42,7 +42,9 @@ def run_demo(src):
 def main():
     prop, m = sys.argv[1], sys.argv[2]
     checks = sys.argv[3:] or [prop]
-    src = "/tmp/seed-out/%s/%s" % (prop, m)
+    base = os.environ.get("SEED_BASE", "/tmp/seed-out")
+    tag = os.environ.get("SEED_TAG", "")
+    src = "%s/%s/%s" % (base, prop, m)
     if not os.path.isdir(WT):
         subprocess.check_call(["git", "-C", "/repo", "worktree", "add", "--detach", WT, "HEAD"], stdout=subprocess.DEVNULL)
     else:
@@ -87,7 +89,7 @@ def main():
     res["checks"] = fired
     print(json.dumps(res, indent=1))
     if ok:
-        dst = os.path.join(VERIF, "seeded", "%s-%s" % (prop, m))
+        dst = os.path.join(VERIF, "seeded", "%s-%s%s" % (prop, tag, m))
         if os.path.isdir(dst):
             shutil.rmtree(dst)
         os.makedirs(dst)
